@@ -147,6 +147,59 @@ def run(ctx):
             if name == 'onsite_rcc' and any(sum(ch != 'I' for ch in x[0]) != 1 for x in impl.ops_of(st)[:n]):
                 ctx.fail(name, 'on-site random circuit entangled the qubits', dict(N=n))
         ctx.case(('valid', n, _), True)
+    # ---- the random-circuit constructors against the model: same layer structure; run forward with the maps the code drew
+    import circ_util as CU
+    rc = 0
+    for _ in range(ctx.budget(40, 400)):
+        kind = rng.choice(['brickwall', 'onsite', 'global'])
+        n = rng.choice([2, 4, 6]) if kind == 'brickwall' else rng.choice([1, 2, 3, 4])
+        depth = rng.randrange(0, 5) if kind == 'brickwall' else 0
+        rc += 1
+        cid_ = 'rc%d' % rc
+        circ = CI.brickwall_rcc(n, depth) if kind == 'brickwall' else (CI.onsite_rcc(n) if kind == 'onsite' else CI.global_rcc(n))
+        ans = ctx.drv.ask('circ %s rcc %s %d %d' % (cid_, kind, n, depth))
+        il, ml = CU.impl_layers(circ), ctx.drv.ask('circ %s layers' % cid_)
+        ctx.count('corr:rcc-layers')
+        if ans != 'ok' or il != ml:
+            ctx.mismatch(kind + '_rcc', 'layers of %s_rcc(%d, %d)' % (kind, n, depth), ans + ' ' + ml, il, dict(kind=kind, N=n, depth=depth))
+            continue
+        rows, r = G.rand_tableau(rng, n)
+        drawn = []
+        orig = CI.random_clifford_map
+
+        def rec_map(k):
+            m_ = orig(k)
+            drawn.append(impl.ops_of(m_))
+            return m_
+        st = impl.state(rows, r)
+        R.seed_numba(rng.randrange(1 << 30))
+        back = rng.random() < 0.3
+        try:
+            CI.random_clifford_map = rec_map
+            (circ.backward if back else circ.forward)(st)
+        finally:
+            CI.random_clifford_map = orig
+        got = (int(st.r), impl.ops_of(st))
+        a2 = ctx.drv.ask('circ %s %s S %d %s _ %s none' % (cid_, 'bwd' if back else 'fwd', r, H.erows_ops(rows), '/'.join(H.erows_ops(m_) for m_ in drawn) if drawn else '-'))
+        ctx.count('corr:rcc-' + ('backward' if back else 'forward')); ctx.traces += 1
+        mv = (int(a2.split(' ')[1]), H.drows_ops(a2.split(' ')[2]), int(a2.split(' ')[4])) if a2.startswith('ok ') else a2
+        ctx.case(('rcc', kind, n, depth, tuple(rows), r, back), depth > 0 or kind != 'brickwall', sample=dict(op=kind + '_rcc', N=n, depth=depth, maps_drawn=len(drawn)))
+        if mv != got + (0,):
+            ctx.mismatch(kind + '_rcc', 'run with the recorded maps', str(mv)[:600], str(got + (0,))[:600], dict(kind=kind, N=n, depth=depth, rows=rows, r=r, maps=drawn))
+        bad = O.tableau_invariant(got[1], n, got[0])
+        if bad or any(H.valid_map(m_) for m_ in drawn):
+            ctx.fail(kind + '_rcc', 'a random gate drew an invalid map or the resulting state is invalid: %s' % bad, dict(kind=kind, N=n, depth=depth))
+        # resampled at every call: the same circuit run again draws fresh maps (same count)
+        n1 = len(drawn)
+        drawn2 = []
+        try:
+            CI.random_clifford_map = lambda k: (lambda m_: (drawn2.append(impl.ops_of(m_)), m_)[1])(orig(k))
+            circ.forward(impl.state(rows, r))
+        finally:
+            CI.random_clifford_map = orig
+        if len(drawn2) != n1 or (n1 >= 3 and drawn2 == drawn):
+            ctx.fail(kind + '_rcc', 'gates without a specified map are not resampled at every call (%d maps drawn at the second call, %d at the first)' % (len(drawn2), n1),
+                     dict(kind=kind, N=n, depth=depth))
     # ---- statistics (support only; exact tail bounds, alpha = 1e-9 per test)
     R.seed_numba(ctx.seed * 7919 + 17)
     T = 4800
